@@ -489,11 +489,17 @@ def _fold_ports(L, repo, ci, init, fn):
                         made.append((name, tuple(a)))
                         return Opaque(name)
                     return h
-                e = Ev(repo, ci.mod, env={"bind_addr": "BIND", "remote_addr": "REMOTE", "base_port": base, "kwargs": dict(kw)}, self_cls=ci)
+                e = Ev(repo, ci.mod, env={}, self_cls=ci)
                 e.hooks = {"DATAInterface": mk("DATA"), "CTRLInterfaceTRX": mk("CTRL"), "UDPLink": mk("CLCK"),
                            "TRXList": lambda a: Opaque("TRXList"), "threading.Lock": lambda a: Opaque("lock"),
                            "threading.RLock": lambda a: Opaque("lock"), "Lock": lambda a: Opaque("lock")}
+                e.ignore_calls = ("log.", "logging.")
                 try:
+                    # (the options arrive as keywords: bound to **kwargs or to keyword parameters, whichever the
+                    # constructor declares)
+                    for k_, v_ in e._bindargs(init, ["<self>", "BIND", "REMOTE", base], dict(kw)):
+                        if k_ != "self":
+                            e.env[k_] = v_
                     e.run_block(init.body)
                     got = sorted(made)
                 except Unknown:
@@ -517,6 +523,8 @@ def _fold_ports(L, repo, ci, init, fn):
                           sorted(want), norm, line=init.lineno)
                 if isinstance(got, list):
                     L.require("C12.R5", F, fn, "%s: a new transceiver is not running" % cfgtxt, False, e.env.get("self.running"), line=init.lineno)
+                    L.require("C12.R5", F, fn, "%s: child index, child management (default: managing) and clock generator as given" % cfgtxt,
+                              (idx, True, gen), (e.env.get("self.child_idx"), e.env.get("self.child_mgt"), e.env.get("self.clck_gen")), line=init.lineno)
     L.floor("C12.R5", "constructor configurations folded", n, 30)
     return True
 
